@@ -378,6 +378,33 @@ class GraphModels:
                 st.assume(f)
             st.assume(o.n <= a.n)
             return st.alloc(o)
+        if name in ("append", "extend") and isinstance(recv, Ref) and isinstance(st.heap[recv.id], ListObj) and len(args) == 1 and \
+                st.heap[recv.id].t in (TDisc, DLIST) and not st.heap[recv.id].is_empty_literal:
+            # lists of disciplines / of groups: the same lists as the base model (old elements kept, new ones appended in order),
+            # described by a fresh array and axioms with usable triggers (in both directions) instead of store/lambda terms
+            o = st.heap[recv.id]
+            if name == "append":
+                self._append_fresh(ex, o, o.t.embed(st, args[0]))
+                return None
+            src = st.heap[args[0].id] if isinstance(args[0], Ref) else None
+            if isinstance(src, ListObj) and o.t == TDisc and (src.is_empty_literal or src.t == TDisc):
+                sn = z3.simplify(src.n)
+                if src.is_empty_literal:
+                    return None
+                if z3.is_int_value(sn) and sn.as_long() <= 12:
+                    for q in range(sn.as_long()):
+                        self._append_fresh(ex, o, z3.simplify(src.elems[q]))
+                    return None
+                oldn, olde = o.n, o.elems
+                ne = st.fresh_const("xel", olde.sort())
+                i = z3.Int("i!dx")
+                st.assume(_forall([i], z3.Implies(z3.And(0 <= i, i < oldn), ne[i] == olde[i]), patterns=[ne[i]] + ([olde[i]] if _pat_ok(olde[i]) else [])))
+                st.assume(_forall([i], z3.Implies(z3.And(oldn <= i, i < oldn + src.n), ne[i] == src.elems[i - oldn]), patterns=[ne[i]]))
+                st.assume(_forall([i], z3.Implies(z3.And(0 <= i, i < src.n), ne[oldn + i] == src.elems[i]), patterns=[src.elems[i]] if _pat_ok(src.elems[i]) else None))
+                o.elems, o.n = ne, oldn + src.n
+                ex.writeback(o)
+                return None
+            return NotImplemented
         if name == "conv.is_continuous" and isinstance(recv, ConverterV):
             return SV(is_continuous(recv.d, z3.BoolVal(recv.which == "in"), TStr.embed(st, args[0])), TBool)
         if name == "has_names" and isinstance(recv, Ref) and getattr(st.heap[recv.id], "grammar_of", None) is not None:
@@ -544,6 +571,16 @@ class GraphModels:
             return st.alloc(o)
         raise Unsupported(f"discipline method {name} (no model registered)")
 
+    def _append_fresh(self, ex, o, term):
+        st = ex.st
+        oldn, olde = o.n, o.elems
+        ne = st.fresh_const("xel", olde.sort())
+        i = z3.Int("i!da")
+        st.assume(_forall([i], z3.Implies(z3.And(0 <= i, i < oldn), ne[i] == olde[i]), patterns=[ne[i]] + ([olde[i]] if _pat_ok(olde[i]) else [])))
+        st.assume(ne[oldn] == term)
+        o.elems, o.n = ne, oldn + 1
+        ex.writeback(o)
+
     def _add_differentiated(self, ex, d, inputs, lst, lineno):
         """Opaque discipline d: effect of add_differentiated_inputs/outputs(names) on the ghost map of differentiated
         names, as stated by the contract verified on the real method (c09: AddDifferentiatedInputs/Outputs)."""
@@ -697,7 +734,13 @@ class GraphModels:
                 raise Unsupported("itertools.chain over non-set iterables")
             i = z3.Int("i!ch")
             k = z3.Const("k!ch", o.k.sort())
-            mem = z3.Lambda([k], z3.Exists([i], z3.And(0 <= i, i < gen.n, z3.substitute(o.member, (bi, i))[k])))
+            # member = {k | exists i < n. k in set_i}: a fresh array with the two directions of that definition (the witness index is
+            # a skolem function), each with a usable trigger - instead of a lambda/exists term
+            mem = st.fresh_const("chmem", z3.ArraySort(o.k.sort(), B))
+            wit = st.fresh_const("chwit", z3.ArraySort(o.k.sort(), I))
+            at = lambda x: z3.substitute(o.member, (bi, x))  # noqa: E731
+            st.assume(_forall([k], z3.Implies(mem[k], z3.And(0 <= wit[k], wit[k] < gen.n, at(wit[k])[k])), patterns=[mem[k]]))
+            st.assume(_forall([i, k], z3.Implies(z3.And(0 <= i, i < gen.n, at(i)[k]), mem[k]), patterns=[at(i)[k]] if _pat_ok(at(i)[k]) else None))
             res = SetObj(o.k, mem, st.fresh_int("chn"))
             for f in res.wf_facts(st):
                 st.assume(f)
